@@ -15,7 +15,8 @@ EXPLANATION = ("C05: every panic-capable instruction (overflow/bounds/division a
                "comparisons, constant conditions, API facts, slow 64-bit counters, prefix-guarded slices) or by a reviewed table "
                "entry whose structural requirements hold on the current tree; (R2) allocation sizes derive from lengths/counts of "
                "input data, never from decoded numbers; (R3) the only recursion is over the nesting of the JSON document, which "
-               "serde_json bounds.")
+               "serde_json bounds."
+               " (R4) accessor table and iterators (the serialised form is written through them and must decode again); (R5) data-URL alphabet pairing.")
 NOT_DECIDED = ("termination/time of loops and allocation amounts (runtime quantities); panics inside dependencies beyond the API table; "
                "inputs of 4 GiB or more (u32 counters)")
 ASSUMPTIONS = ["no in-memory object exceeds 2^56 bytes/elements", "inputs smaller than 4 GiB (fewer than 2^32-1 lines, sources, names, sections)"]
